@@ -189,3 +189,41 @@ Proof.
   exists [3%N], (fun _ => true), [[120%N; 32%N] ++ tag IGN nm 3%N], [mk_diag 1 3 (Some 1) 0 true].
   vm_compute. discriminate.
 Qed.
+
+(* ---------------- the two known findings, on the model ---------------- *)
+
+(* the model (like the code) looks at the text of a line, not at its tokens:
+   the ignore text inside a string literal acts as a comment.
+   Line:  s = '# static analysis: ignore'; print(x)  *)
+Definition string_literal_line : line :=
+  [115%N; 32%N; 61%N; 32%N; 39%N] ++ IGN ++ [39%N; 59%N; 32%N; 112%N; 114%N; 105%N; 110%N; 116%N; 40%N; 120%N; 41%N].
+
+Theorem ignore_text_in_string_acts : forall c,
+  trailing_hit IGN nm string_literal_line c = true /\ has_any IGN string_literal_line = true.
+Proof. intros c. split; vm_compute; reflexivity. Qed.
+
+(* contents.splitlines() splits at a form feed (12) that the tokenizer keeps
+   inside line 1: the trailing comment of the tokenizer's line 2 is then
+   lines[2], and the lookup for a diagnostic on line 2 misses it *)
+Definition ff_line_a : line := [115%N; 32%N; 61%N; 32%N; 39%N; 97%N].
+Definition ff_line_b : line := [98%N; 39%N].
+Definition ff_line_2 : line := [112%N; 114%N; 105%N; 110%N; 116%N; 40%N; 120%N; 41%N; 32%N; 32%N] ++ IGN.
+
+Theorem splitlines_shift_acts : forall c,
+  Suppress.line_ignore IGN nm [ff_line_a ++ [12%N] ++ ff_line_b; ff_line_2] 2 c = Some 1 /\
+  Suppress.line_ignore IGN nm [ff_line_a; ff_line_b; ff_line_2] 2 c = None.
+Proof.
+  intros c. unfold Suppress.line_ignore, line_at. cbn [nth Nat.sub].
+  assert (A : has_bare IGN ff_line_2 = true) by (vm_compute; reflexivity).
+  assert (B : has_bare IGN ff_line_b = false) by (vm_compute; reflexivity).
+  assert (C : has_any IGN ff_line_b = false) by (vm_compute; reflexivity).
+  assert (D : own_bare IGN ff_line_a = false) by (vm_compute; reflexivity).
+  assert (E : forall t, substr (IGN ++ t) ff_line_b = false).
+  { intros t. vm_compute. reflexivity. }
+  assert (F : forall t, list_N_eqb (strip ff_line_a) (IGN ++ t) = false).
+  { intros t. vm_compute. reflexivity. }
+  split.
+  - cbn [Nat.leb]. now rewrite A.
+  - rewrite B. unfold has_tag, tag. rewrite E. cbn [orb Nat.leb andb].
+    rewrite D. unfold own_tag, tag. now rewrite F.
+Qed.
